@@ -522,10 +522,10 @@ def drawn_graph(draw, n: int, mask_strategy=None, pos_kinds=('n', 'as'), limit: 
 
 @st.composite
 def random_graph(draw, min_n: int = 5, max_n: int = 8, pos_kinds=('n', 'as'),
-                 limit: int = 120) -> dict:
-    """A graph of one of the four families; 'family' is recorded in the description."""
+                 limit: int = 120, families=None) -> dict:
+    """A graph of one of the families; 'family' is recorded in the description."""
     n = draw(st.integers(min_n, max_n))
-    fam = draw(st.sampled_from(sorted(FAMILIES)))
+    fam = draw(st.sampled_from(sorted(families or FAMILIES)))
     d = draw(drawn_graph(n, FAMILIES[fam](n), pos_kinds, limit))
     d['family'] = fam
     return d
